@@ -249,7 +249,9 @@ def cmd_run(prop, tier, seed):
         build_engine()
     spec = load_spec(prop)
     known = [k for k in load_known() if k["property"] == prop]
-    known_open = set(k["id"] for k in known if k.get("status", "open") == "open")
+    # harnesses borrowed from another property keep that property's open findings excluded (the
+    # finding itself is reported by the check of the property it belongs to)
+    known_open = set(k["id"] for k in load_known() if k.get("status", "open") == "open")
     workdir = os.path.join(ROOT, "work", "%s-%s%s" % (prop, tier, ALT))
     shutil.rmtree(workdir, ignore_errors=True)
     os.makedirs(workdir)
